@@ -524,3 +524,6 @@ impl<'a> TokenPredictor<'a> {
         self.current_token_count += 1;
     }
 }
+
+#[path = "../../export/token_predictor.rs"]
+pub mod verif_export;
